@@ -75,6 +75,7 @@ type gen struct {
 	constRet    bool            // every return of the current function returns literals
 	shadows     map[string]bool // package-level names the current function has shadowed by a local
 	forceShadow bool            // the next function-level `var` shadows a package-level name (gen_pkg.go)
+	blocked     map[string]bool // declared names not usable as operands right now (they still shadow earlier entries)
 }
 
 const costBudget = 60000
@@ -1732,15 +1733,22 @@ func (g *gen) function(name string, index int, params []Param, results []*Ty, na
 		if !g.shape("named_result_zero", 40) {
 			// like the shipped named_return*.mpcl programs: every named result is
 			// assigned before anything reads it
-			hidden := g.vars[np:]
+			// (the results themselves are not readable yet: the initial values must not
+			// depend on them)
+			var hidden []gvar
 			if g.opts.globals > 0 {
-				// own copy: the g.declare below appends to g.vars[:np] and would overwrite
-				// the hidden entries (in the declaration-free modes that only makes the
-				// generator forget a named result; here a forgotten result of the name of
-				// a package-level declaration would look unshadowed)
-				hidden = append([]gvar(nil), hidden...)
+				// the results stay in g.vars - they SHADOW package-level declarations of
+				// their names from the start of the function - and are only blocked as
+				// operands (vis()); removing them would make a shadowed package-level
+				// name look visible at its package-level type here
+				g.blocked = map[string]bool{}
+				for _, rn := range f.Named {
+					g.blocked[rn] = true
+				}
+			} else {
+				hidden = g.vars[np:]
+				g.vars = g.vars[:np]
 			}
-			g.vars = g.vars[:np]
 			var pre []*Stmt
 			for i, rn := range f.Named {
 				e := g.expr(results[i], g.opts.maxDepth, false)
@@ -1753,6 +1761,7 @@ func (g *gen) function(name string, index int, params []Param, results []*Ty, na
 				}
 				pre = append(pre, &Stmt{K: "assign", LVs: []*LVal{{X: rn, T: results[i]}}, E: e})
 			}
+			g.blocked = nil
 			for i := range hidden {
 				hidden[i].assignable = true
 			}
